@@ -230,7 +230,30 @@ def job_deep():
                 for nd in nodes:
                     nd.parent = None
 
+    def wide():
+        # a very wide node: positions beyond anything a small tree has (e.g. beyond CPython's shared small ints)
+        n = 601
+        m = tree.Model([None] + [0] * 300 + [1] * 300, [list(range(1, 301)), list(range(301, 601))] + [[] for _ in range(599)])
+        for kind in ("user", "light"):
+            nodes = tree.build(m, tree.default_factory(kind), "topdown")
+            idm = tree.IdMap(nodes)
+            bad = []
+            for i in (1, 2, 150, 257, 258, 299, 300, 301, 558, 559, 600):
+                nd = nodes[i]
+                bad += [w for w, e, g in (("siblings(%d)" % i, m.siblings(i), idm.seq(nd.siblings)),
+                                          ("leftsibling(%d)" % i, m.leftsibling(i), idm(util.leftsibling(nd))),
+                                          ("rightsibling(%d)" % i, m.rightsibling(i), idm(util.rightsibling(nd))),
+                                          ("path(%d)" % i, m.path(i), idm.seq(nd.path))) if e != g]
+            bad += [w for w, e, g in (("descendants(0)", m.descendants(0), idm.seq(nodes[0].descendants)), ("leaves(1)", m.leaves(1), idm.seq(nodes[1].leaves)),
+                                      ("size(0)", 601, nodes[0].size), ("height(0)", 2, nodes[0].height)) if e != g]
+            t.c["evaluations"] += 1
+            t.c["deep_chain_queries"] += 1
+            for w in bad[:2]:
+                t.violation("C04: %s on a node with 300 children differs from its definition" % w,
+                            {"engine": "E2", "module": MOD, "part": "deep", "kind": kind, "query": w})
+
     core.guard(t, "C04", {"engine": "E2", "module": MOD, "part": "deep"}, run, _limit=90)
+    core.guard(t, "C04", {"engine": "E2", "module": MOD, "part": "deep"}, wide, _limit=90)
     return t
 
 
